@@ -173,6 +173,9 @@ def getattr_(ex, o, name):
                 return Bound(m_, o)
             if name == '__class__':
                 return ho.cls
+            if name == '__dict__' and ho.cls is not None and o.old is None:
+                # the instance dictionary: a dict *view* sharing the field table (reads and writes alias)
+                return ex.alloc(DObj(ho.fields))
             if ho.cls in LIB_METHODS:
                 cls_ = ho.cls
                 return Builtin(name, lambda ex_, a, k, _o=o, _n=name: LIB_METHODS[cls_](ex_, _o, _n, a))
@@ -582,6 +585,12 @@ def list_method(ex, ref, ho, name, args, kwargs):
 
 def list_extend(ex, ref, v):
     ho = ex.wobj(ref)
+    if ex.skeleton and isinstance(v, Unknown):
+        # skeleton profile: extended by an uninterpreted iterable -> an arbitrary list
+        ex.abstraction_used = True
+        ho.items = None
+        ho.sym = ex.fresh_sym(('seq', ('opq', 'unknown')), 'ext')
+        return
     items = ex.concrete_iter(v)
     if ho.items is not None and items is not None:
         ho.items.extend(items)
@@ -1423,6 +1432,16 @@ LIB_METHODS = {asyncio.Event: event_method}
 
 
 def call_native(ex, f, args, kwargs, node=None):
+    # contract kwarg `stubs={native callable: Callback}`: a library function outside the kernel
+    # (asyncio.wait_for, asyncio.create_task, ...) is replaced by a recorded callback (environment)
+    stubs = getattr(getattr(ex.cfg, 'top', None), 'extra', {}).get('stubs')
+    if stubs:
+        try:
+            cb = stubs.get(f)
+        except TypeError:
+            cb = None
+        if cb is not None:
+            return ex.call(ex.cfg.fresh(ex, cb, cb.name), args, kwargs, node)
     try:
         model = NATIVE_MODELS.get(f)
     except TypeError:
@@ -1433,6 +1452,9 @@ def call_native(ex, f, args, kwargs, node=None):
         mod_ = getattr(f.raw, '__module__', '') or ''
         if getattr(f.raw, '__name__', '') == '__init__' and (mod_.startswith('pyee') or f.raw is object.__init__):
             return None  # event-emitter bookkeeping: environment
+        if f.raw in (BaseException.__init__, Exception.__init__) and args and isinstance(args[0], Ref) and not kwargs:
+            ex.setattr(args[0], 'args', tuple(args[1:]))  # BaseException.__init__(self, *args)
+            return None
         raise Unsupported(f'native method {f.raw}')
     if isinstance(f, types.MethodType) and isinstance(f.__func__, types.FunctionType):
         fn = ex.func_of_native(f.__func__)
